@@ -3,6 +3,8 @@ Spec for C15: what the manual and the property say about modules, written withou
 depths or a dependency graph.
 
 * a module name `A-B-C` denotes the file `A/B/C.zn` below the main file's directory, `@L` the registered library `L`;
+  every part A, B, C is a plain file name (not empty, not `.` or `..`, no `/` or `\`): a name with any other part denotes
+  no module at all (60), so different names never denote one file and no name reaches outside that directory;
 * loading is a depth-first walk over the import statements, in order: a module's imports are loaded before its own
   statements run, a module that is already loaded is not run again, a module that is still being loaded (it is on
   the import stack) is a circular dependency (63), a missing file is 60, a missing library 64;
@@ -42,7 +44,19 @@ def segments (n : Name) : List Name := segsAux [] [] n
 inductive Target
   | file (p : Path)
   | lib (l : Name)
+  | nothing             -- the name denotes no module
   deriving DecidableEq, Repr
+
+/-- a plain directory or file name: not empty, not `.`, not `..`, without a path separator -/
+def plainSegment (s : Name) : Bool :=
+  match s with
+  | [] => false
+  | [0x2E] => false
+  | [0x2E, 0x2E] => false
+  | _ => !(s.contains 0x2F) && !(s.contains 0x5C)
+
+/-- every `-`-separated part of the name is a plain file name -/
+def plainName (n : Name) : Bool := (segments n).all plainSegment
 
 /-- the last segment gets the extension -/
 def withExt : List Name → Path
@@ -50,11 +64,11 @@ def withExt : List Name → Path
   | [x] => [x ++ [0x2E, 0x7A, 0x6E]]
   | x :: r => x :: withExt r
 
-/-- `@L` is the library `@L`; `A-B-C` is the file `A/B/C.zn` -/
+/-- `@L` is the library `@L`; `A-B-C` with plain parts is the file `A/B/C.zn`; anything else is no module -/
 def resolve (n : Name) : Target :=
   match n with
   | 0x40 :: _ => .lib n
-  | _ => .file (withExt (segments n))
+  | _ => if plainName n then .file (withExt (segments n)) else .nothing
 
 def isLibName (n : Name) : Bool :=
   match n with
@@ -74,6 +88,7 @@ def sourceOf (files : Files) (mainPath : Path) : Node → Option ModuleSrc
   | .named n => match resolve n with
     | .file p => assoc p files
     | .lib _ => none
+    | .nothing => none
 
 /-- `a` has an import statement naming the (non-library) module `b` -/
 def Imports (files : Files) (mainPath : Path) (a : Node) (b : Node) : Prop :=
@@ -259,6 +274,7 @@ def specLoad (files : Files) (libs : Libs) (callFuel : Nat) : Nat → List Node 
       | none =>
         match resolve n with
         | .lib _ => .err (.code 60) st
+        | .nothing => .err (.code 60) st
         | .file p =>
           match assoc p files with
           | none => .err (.code 60) st
